@@ -92,3 +92,8 @@ Definition embedding (N : Z) (EG : list (Z * Z)) (k : Z) (EH : list (Z * Z)) (in
 Definition homogeneous (N : Z) (E : list (Z * Z)) (k : Z) (b : bool) (phi : Z -> Z) : Prop :=
   injection k N phi /\
   forall i1 i2, 1 <= i1 <= k -> 1 <= i2 <= k -> i1 <> i2 -> has_edge E (phi i1) (phi i2) = b.
+(* S is a set of k vertices, pairwise adjacent (b = true: a k-clique) or pairwise non-adjacent
+   (b = false: an independent set of size k) *)
+Definition homogeneous_set (N : Z) (E : list (Z * Z)) (k : Z) (b : bool) (S : list Z) : Prop :=
+  NoDup S /\ len S = k /\ (forall v, In v S -> 1 <= v <= N) /\
+  (forall u v, In u S -> In v S -> u <> v -> has_edge E u v = b).
